@@ -208,6 +208,7 @@ class MBuild:
         self.done_files = {}
         self.created = set()
         self.created_cache = []
+        self.destroyed = set()   # previous outputs moved aside to make room for a target of this build
         self.roots = []
         self.lock = threading.RLock()
         self.root_finished = False
@@ -263,6 +264,15 @@ class MBuild:
             self.v[a] = ('d',)
             self.created.add(a)
             self.error_removed.discard(a)
+        if self.prev is not None:
+            # making room: an output of the previous build that lies below the new target (the target
+            # was a directory then) or at one of the directories now created for it (the directory was
+            # an output file then) is moved aside for good - physically it cannot coexist with this
+            # call, whether the call succeeds or not - so a later request for it in this build cannot
+            # be served from the cache ("a recorded output no longer matches")
+            for q in self.prev.outputs:
+                if q.startswith(p + '/') or q in need:
+                    self.destroyed.add(q)
         clobbered = self.v.pop(p, None) is not None
         self.claimed_files.add(p)
         self.inprog.add(p)
@@ -296,6 +306,8 @@ class MBuild:
     def outputs_intact(self, r):
         for x in [r] + list(iter_nodes(r.sub)):
             if x.t == 'bf' and not x.raised:
+                if x.path in self.destroyed:
+                    return False
                 e = self.m.disk.get(x.path)
                 if e is None or e[0] != 'f' or cmpval(e, x.cmp) != x.out:
                     return False
